@@ -276,7 +276,7 @@ func (f *Frame) callContract(ct *Contract, callee *ssa.Function, sig *types.Sign
 	} else {
 		var ms *modSet
 		if callee != nil && !ct.Trusted {
-			ms = g.P.funcModSet(callee)
+			ms = f.calleeModSet(callee, args)
 		} else {
 			ms = g.P.externalModSet(sig, args, callee != nil || true)
 		}
@@ -338,7 +338,7 @@ func (f *Frame) havocCall(callee *ssa.Function, key string, c *ssa.CallCommon, a
 	var sig *types.Signature
 	switch {
 	case callee != nil && g.P.inModule(callee) && len(callee.Blocks) > 0:
-		ms = g.P.funcModSet(callee)
+		ms = f.calleeModSet(callee, args)
 		sig = callee.Signature
 		g.note("uncontracted callee (frame computed from its body, result unconstrained, its panic-freedom is not assumed here but checked only if it is itself listed): %s", key)
 	case callee != nil:
@@ -347,9 +347,14 @@ func (f *Frame) havocCall(callee *ssa.Function, key string, c *ssa.CallCommon, a
 		g.note("external callee with default contract (result unconstrained; writes only through its slice/pointer arguments; does not panic): %s", key)
 	default:
 		sig = c.Signature()
-		if c.IsInvoke() && g.P.isModuleType(c.Value.Type()) {
-			ms = &modSet{all: true}
-			g.note("interface call on module type without contract (everything havocked): %s", key)
+		if cms := (*modSet)(nil); c.IsInvoke() && g.P.isModuleType(c.Value.Type()) {
+			if cms = g.P.closedInvokeModSet(c, 0); cms != nil {
+				ms = cms
+				g.note("interface call on module type without contract (frame: union of the frames of the module's implementations; the interface cannot be implemented outside the module): %s", key)
+			} else {
+				ms = &modSet{all: true}
+				g.note("interface call on module type without contract (everything havocked): %s", key)
+			}
 		} else {
 			ms = g.P.externalModSet(sig, args, c.IsInvoke())
 			g.note("external/dynamic callee with default contract: %s", key)
@@ -378,6 +383,30 @@ func (f *Frame) havocCall(callee *ssa.Function, key string, c *ssa.CallCommon, a
 	g.assume(f.curReach, g.typeInv(v))
 	g.assume(f.curReach, g.refFacts(f.curState, v))
 	return v
+}
+
+// calleeModSet: the static frame of callee at a call with these arguments: where callee calls one of its
+// function-valued parameters, what the function passed there writes is added (everything, if unknown).
+func (f *Frame) calleeModSet(callee *ssa.Function, args []*SVal) *modSet {
+	p := f.g.P
+	ms := p.funcModSet(callee)
+	if len(ms.paramCalls) == 0 {
+		return ms
+	}
+	out := newModSet()
+	out.add(ms)
+	for k := range ms.paramCalls {
+		if k >= len(args) || args[k] == nil || args[k].Clo == nil || args[k].Clo.Fn == nil {
+			out.all = true
+			break
+		}
+		cms := p.funcModSet(args[k].Clo.Fn)
+		out.add(cms)
+		if len(cms.paramCalls) > 0 {
+			out.all = true
+		}
+	}
+	return out
 }
 
 func (g *Gen) havocNames(st *State, ms *modSet) {
